@@ -131,6 +131,8 @@ def run(ctx):
     docs += ["See 2 Cooke, 93 Wn. App. 526, 529 (1999).", "1 Thompson 394 U. S. 618", "In re Cooke, 93 Wn. App. 526"]
     # D24: a reference to an earlier case that runs into the volume of the next citation, with another citation
     # (section mark, id.) inside the full span of that next citation in between
+    docs += ["Foo, 1 Unemployment Ins. Rep. at 1234.56, 2 U.S. 3 (1801).", "85 FERC at 61,012 86 FERC 61,345",
+             "Foo, 85 FERC at 61,012, 86 FERC 61,345", "Bar, 1 U.S. at 5-6 2 U.S. 3"]
     docs += ["Foo v. Smith, 5 U.S. 5 (1999). Bar v. Baz, § 3, Smith at 1 U.S. 1 (2000).",
              "Foo v. Smith, 5 U.S. 5 (1999). See Bar v. Baz, Id. Smith at 1 U.S. 1 (2000)."]
     for _ in range(200 if th else 30):
